@@ -1,1 +1,42 @@
-From Emd Require Import Base.Prelude Model.H5 Model.Emd Model.Reader.
+(* C10 -- several trees in one file stay separate and individually readable.  Statements only.
+   PARTIAL: proved are the frame property (adding or modifying one tree never changes any other tree, nor the
+   header and UUID), that a new root name adds exactly one top-level tree, and the multi-root read; that each
+   tree equals its source and the list/tuple storage rules are tied by correspondence + oracle. *)
+From Emd Require Import Base.Prelude Model.H5 Model.Emd Model.Reader Generated.Tables Proofs.PFrame.
+
+(* target_root: the tree a save is aimed at = the root's name, or the tree named by emdpath for a foreign root.
+   `only X f f'` : header attributes equal, every top-level link other than X equal. *)
+Theorem C10_append_touches_only_the_targeted_tree :
+  forall root tp a m f f', append_existing root tp a m f = Ok f' -> only (target_root root a f) f f'.
+Proof. exact append_existing_frame. Qed.
+Print Assumptions C10_append_touches_only_the_targeted_tree.
+
+Theorem C10_other_trees_and_header_untouched :
+  forall c f root tp a m f' r',
+    run_prelude prelude_order (mode a) (emdpath a) true = Ok m ->
+    mem m overwritemode = false -> mem m writemode = false ->
+    write_node c (H5 f) root tp a = (Ok tt, H5 f') ->
+    r' <> target_root root a f ->
+    lookup f' [r'] = lookup f [r'] /\ oattrs f' = oattrs f.
+Proof. exact other_trees_and_header_untouched. Qed.
+Print Assumptions C10_other_trees_and_header_untouched.
+
+Theorem C10_new_root_adds_one_tree :
+  forall root tp tr f f', write_from_root root tp tr f = Ok f' ->
+    exists c, get (olinks f') (rname root) = Some c /\ get (olinks f) (rname root) = None.
+Proof. exact new_tree_adds_one_link. Qed.
+Print Assumptions C10_new_root_adds_one_tree.
+
+Theorem C10_multi_root_read_reports_names :
+  forall f tr r1 r2 rest, rootgroups f = r1 :: r2 :: rest -> read_emd f None tr = Ok (RNames (rootgroups f)).
+Proof. exact read_multi_root. Qed.
+Print Assumptions C10_multi_root_read_reports_names.
+
+(* non-vacuity: appending a second tree to a one-tree file *)
+Example C10_hypotheses_satisfiable :
+  let c := CFG "emdfile" "" in
+  let r1 := RN CRoot "r1" 0%Z 0 [] [RN CNode "a" 0%Z 0 [] []] in
+  let r2 := RN CRoot "r2" 0%Z 0 [] [RN CNode "b" 0%Z 0 [] []] in
+  exists f f', fresh_file c r1 [] (Some true) = Ok f /\ write_node c (H5 f) r2 [] (WA "a" (Some true) None) = (Ok tt, H5 f')
+               /\ run_prelude prelude_order "a" None true = Ok "a" /\ rootgroups f' = ["r1"; "r2"].
+Proof. cbv zeta. eexists. eexists. split; [vm_compute; reflexivity|]. split; [vm_compute; reflexivity|]. split; vm_compute; reflexivity. Qed.
